@@ -88,8 +88,13 @@ def work(item):
             g = m['grid'].Grid(eta, [None, None, None, vbasis], h4, 'v_parallel', comm=comm, dtype=object)
             rho = m['grid'].Grid(eta[:3], [None] * 3, h3, 'v_parallel_2d', comm=comm, dtype=object)
             dist.fill_grid(g, F)
+            if mode.endswith('+hist'):
+                # another finder built earlier in the same process: same sizes and constants, different v grid
+                vb2 = dist.make_basis(vdeg, False, [b + Fr(5, 2) for b in vbreaks], uniform=(vpath == 'cu'))
+                eta2 = list(eta[:3]) + [np.array(list(vb2.greville), dtype=object)]
+                ps.DensityFinder(6, vb2, eta2, consts)
             df = ps.DensityFinder(6, vbasis, eta, consts)
-            if mode == 'perturbed':
+            if mode.startswith('perturbed'):
                 df.getPerturbedRho(g, rho)
             else:
                 df.getRho(g, rho)
@@ -121,7 +126,7 @@ def work(item):
                 acc = K(0)
                 for l, w in enumerate(W):
                     term = F[ir, it, iz, l]
-                    if mode == 'perturbed':
+                    if mode.startswith('perturbed'):
                         if (ir, l) not in feq:
                             feq[(ir, l)] = fe(eta[0][ir], vpts[l], consts.CN0, consts.kN0, consts.deltaRN0, consts.rp,
                                               consts.CTi, consts.kTi, consts.deltaRTi)
@@ -164,6 +169,8 @@ def float_replay(m, ps, item, canary):
     nr, nth, nz = shape
     vdeg, vcells, vpath = vspace
     numenv.disable()
+    if not canary:
+        ps = H.fresh_copy(ps)       # class-level state of the symbolic run must not leak into the replay
     try:
         vbreaks = dist.uniform_breaks(-3, 3, vcells) if vpath == 'cu' else [Fr(-3) + Fr(6 * i * i, vcells * vcells) * Fr(1, 2) + Fr(3 * i, vcells) for i in range(vcells + 1)]
         kn = m['spl'].make_knots(np.array([float(x) for x in vbreaks]), vdeg, False)
@@ -179,7 +186,7 @@ def float_replay(m, ps, item, canary):
         for i in range(nr):
             for l in range(len(vpts)):
                 feq[i, l] = m['init_funcs'].f_eq(eta[0][i], vpts[l], consts.CN0, consts.kN0, consts.deltaRN0, consts.rp, consts.CTi, consts.kTi, consts.deltaRTi)
-        ref = np.einsum('rtzv,v->rtz', Fd - (feq[:, None, None, :] if mode == 'perturbed' else 0), W)
+        ref = np.einsum('rtzv,v->rtz', Fd - (feq[:, None, None, :] if mode.startswith('perturbed') else 0), W)
         nranks = int(np.prod(nprocs))
 
         def rankfn(comm):
@@ -188,8 +195,12 @@ def float_replay(m, ps, item, canary):
             g = m['grid'].Grid(eta, [None, None, None, vb], h4, 'v_parallel', comm=comm)
             rho = m['grid'].Grid(eta[:3], [None] * 3, h3, 'v_parallel_2d', comm=comm)
             dist.fill_grid(g, Fd)
+            if mode.endswith('+hist'):
+                kn2 = m['spl'].make_knots(np.array([float(x) + 2.5 for x in vbreaks]), vdeg, False)
+                vb2 = m['spl'].BSplines(kn2, vdeg, False, vpath == 'cu')
+                ps.DensityFinder(6, vb2, list(eta[:3]) + [np.array(vb2.greville, dtype=float)], consts)
             df = ps.DensityFinder(6, vb, eta, consts)
-            (df.getPerturbedRho if mode == 'perturbed' else df.getRho)(g, rho)
+            (df.getPerturbedRho if mode.startswith('perturbed') else df.getRho)(g, rho)
             L = rho.getLayout(rho.currentLayout)
             exp = dist.local_block(ref, L)
             err = float(np.max(np.abs(rho.getAllData() - exp))) if exp.size else 0.0
@@ -233,6 +244,9 @@ def main():
     items.append(((8, 2, 3), (3, 2), (3, 3, 'cu'), 'perturbed', None))
     for vs in ([(3, 2, 'nu')] if quick else [(1, 3, 'nu'), (2, 3, 'nu'), (3, 2, 'nu'), (4, 2, 'nu'), (5, 1, 'nu'), (3, 5, 'cu')]):
         items.append(((3, 2, 3), (2, 2), vs, 'perturbed', None))
+    # history: a finder for another v domain (same sizes, same constants) exists already in the process
+    items.append(((3, 2, 3), (1, 1), (3, 3, 'cu'), 'perturbed+hist', None))
+    items.append(((3, 2, 3), (2, 1), (3, 2, 'nu'), 'perturbed+hist', None))
     for cn in CANARIES:
         items.append(((3, 2, 3), (2, 1), (3, 3, 'cu'), 'perturbed', cn))
     caught = {}
